@@ -65,16 +65,6 @@ theorem cg_order_independent {o₁ o₂ : Chooser} (h₁ : o₁.Valid) (h₂ : o
   unfold cgTemplate
   rw [cg_spec h₁ h₂]
 
-/-- KNOWN DEFECT witness (DESIGN §6 F11): the corresponding statement for `{% trans %}` is FALSE — the keyword arguments
-    come out in set order -/
-theorem trans_kwargs_order_dependent :
-    ¬ ∀ f g : List String → List String, (∀ l, (f l).Perm l) → (∀ l, (g l).Perm l) →
-        transVariables f [] ["alpha", "beta"] = transVariables g [] ["alpha", "beta"] := by
-  intro h
-  have := h id List.reverse (fun _ => List.Perm.refl _) (fun l => List.reverse_perm l)
-  revert this
-  decide
-
 -- non-vacuity -----------------------------------------------------------------------------------------------------
 
 def revChooser : Chooser := fun _ l => l.reverse
@@ -107,8 +97,5 @@ example : cgTemplate revChooser { toplevel := true, withPythonScope := true } (.
     cgTemplate idChooser { toplevel := true, withPythonScope := true } (.store "x" (.store "_y" (.store "z" .done))) exCode :=
   cg_order_independent (fun _ l => List.reverse_perm l) (fun _ _ => List.Perm.refl _) _ _ _
 example : revChooser [] ["x", "_y", "z"] ≠ idChooser [] ["x", "_y", "z"] := by decide
-
-example : transVariables id [] ["alpha", "beta"] = ["alpha", "beta"] ∧
-    transVariables List.reverse [] ["alpha", "beta"] = ["beta", "alpha"] := by decide
 
 end JinjaV.C30
